@@ -202,6 +202,8 @@ type RunOpts struct {
 	ExtraReads int  // Reads issued after the first terminal result
 	NoRaw      bool // skip RawRecord
 	Ext        map[string]string
+	// OnRecord, if set, is called with the live record node after every successful Read, and with nil once the run has ended
+	OnRecord func(n *idr.Node)
 }
 
 // RunAll creates a Transform and reads it to its terminal result.
@@ -219,6 +221,17 @@ func RunAll(s omniparser.Schema, input io.Reader, o RunOpts) Transcript {
 	for i := 0; i < max; i++ {
 		st := ReadStep(tr, !o.NoRaw)
 		t = append(t, st)
+		if o.OnRecord != nil {
+			if st.Class == OK {
+				if rr, rerr := tr.RawRecord(); rerr == nil && rr != nil {
+					if n, ok := rr.Raw().(*idr.Node); ok {
+						o.OnRecord(n)
+					}
+				}
+			} else if st.Class == EOF || st.Class == FATAL {
+				o.OnRecord(nil)
+			}
+		}
 		if st.Class == EOF || st.Class == FATAL {
 			for j := 0; j < o.ExtraReads; j++ {
 				t = append(t, ReadStep(tr, !o.NoRaw))
